@@ -236,6 +236,7 @@ type Gen struct {
 	MaxDepth int
 	ErrRate  int // 1/ErrRate of operations deliberately ill-typed (0 = never)
 	Blocks   []string // types of completed toplevel blocks (for bind)
+	OneLineStrings bool // no string literal whose value contains a line break
 }
 
 func NewGen(r *rand.Rand) *Gen {
@@ -285,7 +286,11 @@ func (g *Gen) lit(kind string) Lit {
 			g.count("lit.badstr")
 			return Lit{"str", g.pick(badStrSpellings)}
 		}
-		return Lit{"str", g.pick(strSpellings)}
+		sp := g.pick(strSpellings)
+		for g.OneLineStrings && (strings.Contains(sp, `\n`) || strings.Contains(sp, `\r`) || strings.Contains(sp, `\v`) || strings.Contains(sp, `\f`)) {
+			sp = g.pick(strSpellings)
+		}
+		return Lit{"str", sp}
 	case "bool":
 		return Lit{"bool", g.pick([]string{"true", "false"})}
 	default:
